@@ -1,4 +1,5 @@
 import TonicModel.Lemmas.Compression
+import TonicModel.Lemmas.CompressionHttp
 /-
 C05 — Compression is used only as negotiated and configured.
 Property theorems only; helper lemmas live in `Lemmas/Compression`.
@@ -237,6 +238,46 @@ theorem C05_client_response_delivered (send : Option Enc) (acc : List Call) (sha
     cliDeliver (enabledAfter acc) shape resp
       (call { send, accept := configure true acc } shape umdEnc umdAcc k resp) = true :=
   call_deliver _ _ (configure_agree true acc) shape umdEnc umdAcc k resp
+
+/-! ### the response's HTTP status (dimension audit) -/
+
+/-- Whatever the HTTP status of the response (200 or not; `callHttp` follows `create_response`,
+`Streaming::new_response` and `infer_grpc_status` for the others): a response whose
+`grpc-encoding` is not enabled for receiving is refused with UNIMPLEMENTED, and no other
+response is — the encoding check comes before anything the HTTP status decides. -/
+theorem C05_client_refuses_unsupported_any_http_status (send : Option Enc) (acc : List Call)
+    (shape : Shape) (umdEnc umdAcc : List Bytes) (k http : Nat) (resp : CliResp)
+    (hp : resp.peerCls ≠ .unsupported) :
+    cliRefuse (enabledAfter acc) resp
+      (callHttp { send, accept := configure true acc } shape umdEnc umdAcc k http resp) = true :=
+  callHttp_refuse _ _ (configure_agree true acc) shape umdEnc umdAcc k http resp hp
+
+/-- What the client sends and advertises does not depend on how the peer's answer looks (its HTTP
+status included): the two client statements hold for every HTTP status. -/
+theorem C05_client_request_any_http_status (send : List Enc) (acc : List Call) (shape : Shape)
+    (k http : Nat) (resp : CliResp) :
+    cliSend (sendOf send)
+      (callHttp { send := sendOf send, accept := configure true acc } shape [] [] k http resp) = true ∧
+    cliAdvertise (enabledAfter acc)
+      (callHttp { send := sendOf send, accept := configure true acc } shape [] [] k http resp) = true := by
+  obtain ⟨h1, h2, h3⟩ := callHttp_request { send := sendOf send, accept := configure true acc } shape [] [] k http resp
+  constructor
+  · rw [cliSend_congr _ _ _ h1 h3]
+    exact call_send { send := sendOf send, accept := configure true acc } shape [] k resp
+  · rw [cliAdvertise_congr _ _ _ h2]
+    exact call_advertise _ _ (configure_agree true acc) shape [] k resp
+
+/-- A client that looked at the HTTP status first (skipping the encoding check for a non-200
+response, `callHttpLax`) would violate the refusal clause: accept = {gzip}, a 503 whose head says
+`grpc-encoding: deflate` is then reported as UNAVAILABLE instead of UNIMPLEMENTED. -/
+theorem C05_client_refusal_fails_if_http_status_is_consulted_first :
+    ¬ (∀ (http : Nat) (resp : CliResp), resp.peerCls ≠ .unsupported →
+        cliRefuse [.gzip] resp
+          (callHttpLax { send := none, accept := configure true [.en .gzip] } .unary [] [] 1 http resp) = true) := by
+  intro h
+  have := h 503 { encVals := [deflateName], hdrStatus := none, frames := [], trlStatus := none } (by decide)
+  revert this
+  decide
 
 /-! ### both together: any tonic client against any tonic server -/
 
